@@ -26,6 +26,12 @@
         at least one exists; C06_schedules_example pins the definition on a four-module project (the harness enumerates
         the same four).  The theorems cover MORE orders than the tool realises; that the tool realises exactly the
         `tool_order`s is observed (the worker reports the order in which System processed the modules), not proved.
+     C06_code_exports_is_model, C06_code_handle_reexport_is_model, C06_code_is_model_in_machine_states -- THE TIE TO THE
+        SOURCE: the current bodies of ModuleVistor._getCurrentModuleExports and _handleReExport, translated statement by
+        statement (harness/gen/gen_c06_code.py -> Gen/ReexportCode.v, deep-embedded language Model/ReexportIR.v), interpret
+        to the model's exports_of / handle_reexport for every state and all arguments (hypotheses: the current object is a
+        module; `contents` / the registry mention existing objects and parents are modules or classes -- proved to hold
+        in every machine state).  Primitive, i.e. assumed: see the header of Model/ReexportIR.v.
      (C07_moved_once in Props/C07.v is the order-independence of the location of ONE re-exported object:
         C06_single_reexporter of DESIGN.md for a single designated re-export.)
    REFUTED on the faithful model (pydoctor really depends on the order; known findings in known_findings/C06.json):
@@ -41,6 +47,7 @@
 From Coq Require Import ZArith NArith List Bool Permutation.
 From PydoctorVerif Require Import Base.Sexp Model.Project Spec.ProjectStatic Spec.ProjectSchedules
      Proofs.ProjectBase Proofs.ProjectRegistry Proofs.ProjectStaticCheck Proofs.ProjectBases Proofs.ProjectSchedProofs.
+From PydoctorVerif Require Model.ReexportIR Gen.ReexportCode Proofs.ReexportIRProofs Proofs.ReexportReach.
 Import ListNotations.
 Local Open Scope N_scope.
 
@@ -349,3 +356,39 @@ Proof.
   split; [apply no_shadow_rootsb_sound; vm_compute; reflexivity|].
   split; [apply Permutation_refl|]. split; [apply perm_swap|]. split; vm_compute; reflexivity.
 Qed.
+
+(* ---------------------------------------------------------------------------------------------------------------
+   The tie to the source.  Gen/ReexportCode.v is the CURRENT text of ModuleVistor._getCurrentModuleExports and
+   ModuleVistor._handleReExport (pydoctor/astbuilder.py), translated statement by statement by
+   harness/gen/gen_c06_code.py into the language of Model/ReexportIR.v.  Interpreting that code IS the model's
+   exports_of / handle_reexport, for every state and all arguments (the move itself: C07_code_reparent_is_model). *)
+Theorem C06_code_exports_is_model :
+  forall (s : state) (cur : oid),
+    (forall ob, objs s cur = Some ob -> is_module_tag (o_tag ob) = true \/ o_all ob = None) ->
+    ReexportIR.exports_ir ReexportCode.reexport_code s cur = Some (exports_of s cur).
+Proof. exact ReexportIRProofs.exports_ir_eq. Qed.
+
+Theorem C06_code_handle_reexport_is_model :
+  forall (s : state) (cur : oid) (exports : list N) (orgname asname : N) (origin : oid),
+    ReexportIR.is_inst s cur ReexportIR.CModule = true -> ReexportIRProofs.wf_objs s ->
+    ReexportIR.handle_ir ReexportCode.reexport_code s cur exports orgname asname origin =
+    Some (handle_reexport s cur exports orgname asname origin).
+Proof. exact ReexportIRProofs.handle_ir_eq. Qed.
+
+(* The hypotheses of the two theorems above hold in every state the machine goes through before a re-export (the
+   invariant behind C06_registry_static), for the module m being walked: at each of its module-level imports, what the
+   translated Python does is what the model does. *)
+Theorem C06_code_is_model_in_machine_states :
+  forall (p : project) (Good : state -> Prop) (s : state) (m : N) (mi : modinfo),
+    parents_first p -> Inv p (sname p) (sparent p) Good s -> modinfo_of p m = Some mi ->
+    ReexportIR.exports_ir ReexportCode.reexport_code s (m, 0, 0) = Some (exports_of s (m, 0, 0)) /\
+    forall exports orgname asname origin,
+      ReexportIR.handle_ir ReexportCode.reexport_code s (m, 0, 0) exports orgname asname origin =
+      Some (handle_reexport s (m, 0, 0) exports orgname asname origin).
+Proof.
+  intros p Good s m mi Hwf HI Hm. split.
+  - exact (ReexportReach.exports_code_in_machine_states p Good s m mi HI Hm).
+  - intros exports orgname asname origin.
+    exact (ReexportReach.handle_code_in_machine_states p Hwf Good s m mi exports orgname asname origin HI Hm).
+Qed.
+
